@@ -456,39 +456,68 @@ def p6b(repo, res):
 
 
 def p7(repo, res):
-    """P7: `rotate(None)` / `orientation=None` is the *single* identity rotation: in check_format_input_orientation the value of
-    inpQ on the None path has rank 1 (a stack of one rotation is a path operation: it appends instead of applying to the whole path)"""
+    """P7: `rotate(None)` / `orientation=None` is the *single* identity rotation: in check_format_input_orientation the quaternion
+    returned on the None path has rank 1 (a stack of one rotation is a path operation: it appends instead of applying to the whole path).
+    The function body is evaluated under the assumption `inp is None`: tests of the parameter against None (directly or through a flag
+    bound to such a test) are decided, if statements and conditional expressions follow the decided branch."""
     fn = repo.func("magpylib._src.input_checks", "check_format_input_orientation")
     rel = "magpylib/_src/input_checks.py"
     p = fn.args.args[0].arg
-    branch = None
-    for i, s in enumerate(fn.body):
-        if not isinstance(s, ast.If):
-            continue
-        t, neg = s.test, False
-        while isinstance(t, ast.UnaryOp) and isinstance(t.op, ast.Not):
-            t, neg = t.operand, not neg
-        if isinstance(t, ast.Compare) and isinstance(t.ops[0], (ast.Is, ast.IsNot)) and ast.unparse(t.left) == p \
+    env, flags, decided, rets = {}, {}, [], []
+
+    def truth(t):
+        """value of a test under `p is None`, or None when it does not depend on that alone"""
+        if isinstance(t, ast.UnaryOp) and isinstance(t.op, ast.Not):
+            v = truth(t.operand)
+            return None if v is None else not v
+        if isinstance(t, ast.Compare) and len(t.ops) == 1 and isinstance(t.ops[0], (ast.Is, ast.IsNot)) and ast.unparse(t.left) == p \
                 and isinstance(t.comparators[0], ast.Constant) and t.comparators[0].value is None:
-            if isinstance(t.ops[0], ast.IsNot):
-                neg = not neg
-            branch = (i, s, s.orelse if neg else s.body)
-    res.require(branch is not None, "anchor vanished: `if inp is None` in check_format_input_orientation")
-    i, iff, none_body = branch
-    env = {}
-    for s in list(none_body) + [x for x in fn.body[i + 1:] if isinstance(x, ast.Assign)]:
-        if isinstance(s, ast.Assign) and len(s.targets) == 1 and isinstance(s.targets[0], ast.Name):
-            env[s.targets[0].id] = _rank(s.value, env)
-    rets = [ret_value(fn, r) for r in ast.walk(fn) if isinstance(r, ast.Return)]
-    rets = [v for v in rets if isinstance(v, ast.Tuple) and len(v.elts) == 2]
-    res.require(rets, "anchor vanished: `return inp, inpQ` in check_format_input_orientation")
-    q = rets[0].elts[1]
-    r = _rank(q, env)
+            return isinstance(t.ops[0], ast.Is)
+        if isinstance(t, ast.Name) and t.id in flags:
+            return flags[t.id]
+        return None
+
+    def value(e):
+        if isinstance(e, ast.IfExp):
+            v = truth(e.test)
+            if v is not None:
+                decided.append(e)
+                return value(e.body if v else e.orelse)
+            return None
+        return e
+
+    def block(stmts):
+        for s_ in stmts:
+            if isinstance(s_, ast.If):
+                v = truth(s_.test)
+                if v is not None:
+                    decided.append(s_)
+                    block(s_.body if v else s_.orelse)
+                continue            # a branch on something else (init_format): both arms return, handled through the returns below
+            if isinstance(s_, ast.Assign) and len(s_.targets) == 1 and isinstance(s_.targets[0], ast.Name):
+                t_ = truth(s_.value)
+                if t_ is not None:
+                    flags[s_.targets[0].id] = t_
+                    continue
+                v = value(s_.value)
+                if v is not None:
+                    env[s_.targets[0].id] = _rank(v, env)
+    block(fn.body)
+    res.require(decided, "anchor vanished: no test of the input against None in check_format_input_orientation")
+    for r in ast.walk(fn):
+        if isinstance(r, ast.Return):
+            v = ret_value(fn, r)
+            if isinstance(v, ast.Tuple) and len(v.elts) == 2:
+                rets.append(v)
+    res.require(rets, "anchor vanished: `return <rotation>, <quaternion>` in check_format_input_orientation")
+    q = value(rets[0].elts[1])
+    r = _rank(q, env) if q is not None else None
     ok = r == ("quat", 1)
     res.ob("P7:None is the single identity rotation", ok or r is None, {"rule": "P7", "quaternion_on_None_path": repr(r), "bindings": {k: repr(v) for k, v in env.items()}})
     if r is None:
         res.undecided.append("P7: rank of the quaternion returned for orientation=None not determined from the construction table")
     elif not ok:
+        iff = decided[0]
         res.add(Finding("P7", rel, "check_format_input_orientation", iff, f"for None the validator returns a quaternion of rank {r[1]} (a stack of rotations): "
                         "rotate(None) is then treated as vector input and appended to the path instead of being applied to the whole path", iff.lineno))
 
